@@ -124,27 +124,33 @@ fn bad(class: &'static str, e: String, a: String) -> Verdict {
     })
 }
 
+/// which allocator block is the buffer's storage in, and does that block cover the reported capacity? (asked of the harness'
+/// own allocator registry, not of the library; storage that does not come from the allocator is not judged)
+fn storage_covers_capacity<X: BElem>(b: &AlignedBuffer<X>, what: &str) -> Verdict {
+    let size = std::mem::size_of::<X>();
+    let p0 = b.as_slice().as_ptr() as usize;
+    if let Some((base, bsize)) = crate::block_containing(p0) {
+        let need = (b.allocated_size() as u128) * (size as u128);
+        if (p0 - base) as u128 + need > bsize as u128 {
+            return bad(
+                "alloc",
+                format!(
+                    "the allocator block behind {what} covers the reported capacity: {} * {size} = {need} bytes from the view's start",
+                    b.allocated_size()
+                ),
+                format!("the block is {bsize} bytes long and the view starts {} bytes into it", p0 - base),
+            );
+        }
+    }
+    None
+}
+
 fn protocol<X: BElem>(len: usize) -> Verdict {
     let r = mem::catch(|| -> Verdict {
         let size = std::mem::size_of::<X>();
         let mut buf: AlignedBuffer<X> = unsafe { AlignedBuffer::<X>::zeroed(len) };
-        // which allocator block is the buffer's storage in, and does that block cover the reported capacity? (asked of the
-        // harness' own allocator registry, not of the library; storage that does not come from the allocator is not judged)
-        {
-            let p0 = buf.as_slice().as_ptr() as usize;
-            if let Some((base, bsize)) = crate::block_containing(p0) {
-                let need = (buf.allocated_size() as u128) * (size as u128);
-                if (p0 - base) as u128 + need > bsize as u128 {
-                    return bad(
-                        "alloc",
-                        format!(
-                            "the allocator block behind the buffer covers the reported capacity: {} * {size} = {need} bytes from the view's start",
-                            buf.allocated_size()
-                        ),
-                        format!("the block is {bsize} bytes long and the view starts {} bytes into it", p0 - base),
-                    );
-                }
-            }
+        if let Some(f) = storage_covers_capacity(&buf, "the buffer") {
+            return Some(f);
         }
         if buf.len() != len {
             return bad("len", format!("len() == {len}"), format!("{}", buf.len()));
@@ -223,6 +229,9 @@ fn protocol<X: BElem>(len: usize) -> Verdict {
         }
         // clone is deep
         let mut cl = buf.clone();
+        if let Some(f) = storage_covers_capacity(&cl, "the clone") {
+            return Some(f);
+        }
         let cp = cl.as_slice().as_ptr() as usize;
         if cl.len() != len || cl.allocated_size() != alloc {
             return bad(
@@ -323,6 +332,9 @@ fn protocol<X: BElem>(len: usize) -> Verdict {
                 *x = X::pat(i, 4);
             }
             t.clone_from(&buf);
+            if let Some(f) = storage_covers_capacity(&t, "the clone_from target") {
+                return Some(f);
+            }
             let tp = t.as_slice().as_ptr() as usize;
             if t.len() != len || t.as_slice().len() != len {
                 return bad(
